@@ -66,7 +66,7 @@ func verifTwoEncodings() (rawA, rawB []byte, intAsFloat, isFloat bool) {
 		if zz.Thorough() {
 			zz.Assume(v < 1<<53)
 		} else {
-			zz.Assume(v < 1<<16)
+			zz.Assume(v < 1<<21)
 		}
 		rawB = verifBE(0xcb, math.Float64bits(float64(v)), 8)
 		intAsFloat = true
